@@ -17,6 +17,10 @@ CONSTANTS
   CVB <- CVBQuick
   CPairs <- CPairsQuick
   COps <- COpsQuick
+  OffPairs <- OffPairsQuick
+  OffVC <- OffVCQuick
+  RPairs <- RealPairsQuick
+  RRoutes <- RRoutesQuick
 INIT Init
 NEXT Next
 INVARIANT Export
